@@ -3,7 +3,7 @@ CONSTANTS
   MaxLen = 8
   MaxDepth = 3
   Conds = {"T", "F"}
-  Kinds = {"if", "elif", "ifdef", "elifndef", "else", "endif", "text", "def1"}
+  Kinds = {"if", "elif", "ifdef", "elifndef", "else", "endif", "text", "def1", "noise"}
   MinDump = 8
 INVARIANT Refines
 INVARIANT ClosedNormal
